@@ -22,7 +22,7 @@ Inductive top : Type :=
 | OSetRowCell (c r x : N).
 
 Record ocase : Type := mkOCase {
-  oc_dbg : bool; oc_kind : nat; oc_zst : bool; oc_C : nat; oc_R : nat; oc_win : N * N * N * N;
+  oc_dbg : bool; oc_kind : nat; oc_zst : bool; oc_big : bool; oc_C : nat; oc_R : nat; oc_win : N * N * N * N;
   oc_data : list N; oc_op : top;
 }.
 
@@ -54,7 +54,8 @@ Definition p_ocase : parser ocase :=
   dbg <~ p_bool ;; k <~ p_nat ;; C <~ p_nat ;; R <~ p_nat ;;
   s0 <~ p_N ;; s1 <~ p_N ;; e0 <~ p_N ;; e1 <~ p_N ;;
   d <~ p_list p_N ;; o <~ p_top ;;
-  p_ret (mkOCase dbg (k mod 10) (10 <=? k) C R (s0, s1, e0, e1) d o).
+  (* kind + 10: zero-sized elements; kind + 20: 328-byte elements carrying the same values *)
+  p_ret (mkOCase dbg (k mod 10) ((10 <=? k) && (k <? 20)) (20 <=? k) C R (s0, s1, e0, e1) d o).
 
 Definition oc_receiver (c : ocase) : res (rkind * view) :=
   let parent := view_of_owned (oc_C c) (oc_R c) (oc_C c * oc_R c) in
@@ -130,7 +131,9 @@ Definition ops_model (inp : list N) : list N :=
       | Ok (k, v) =>
           match run_top (oc_dbg c) k v (oc_data c) (oc_op c) with
           (* zero-sized elements: only the outcome and the buffer's length are observable *)
-          | Ok (extra, b') => if oc_zst c then [1%N; N.of_nat (length b')] else 1%N :: extra ++ e_Nlist b'
+          | Ok (extra, b') => if oc_zst c then [1%N; N.of_nat (length b')]
+                              else if oc_big c then 1%N :: e_Nlist b'    (* no addresses from row_pair_mut *)
+                              else 1%N :: extra ++ e_Nlist b'
           | Panic => if oc_zst c then [0%N; N.of_nat (length (oc_data c))] else 0%N :: e_Nlist (oc_data c)
           | UB => [777771%N]
           end
